@@ -404,6 +404,14 @@ class Gen:
         n = self.length()
         if op == 'product' and dtype != 'bool':
             n = min(n, 3)
+        if op == 'sum' and dtype != 'bool' and n >= 1 and self.boolean(0.12):
+            # contraction over an axis along which every factor of a product is merely inserted (rules that absorb InsertAxis into an einsum)
+            cs = shape[:k] + [n] + shape[k:]
+            f = [self.emit('insertaxis', [self.gen(dtype, shape, min(depth, 2), 'insertaxis')], dict(axis=k), dtype, cs) for _ in range(self.choice([2, 2, 3]))]
+            node = f[0]
+            for g in f[1:]:
+                node = self.emit('mul', [node, g], {}, dtype, cs)
+            return self.emit(op, [node], dict(axis=k), dtype, shape)
         return self.emit(op, [self.gen(dtype, shape[:k] + [n] + shape[k:], depth, op)], dict(axis=k), dtype, shape)
 
     def g_sum(self, dtype, shape, depth): return self._reduce('sum', dtype, shape, depth)
